@@ -10,6 +10,9 @@ OPCLASS = {
     'try_pow': set(), 'try_gt': {'>'}, 'try_ge': {'>='}, 'try_lt': {'<'}, 'try_le': {'<='}, 'try_eq': {'=='}, 'try_ne': {'!='},
 }
 POWFNS = {'pow', 'powf', 'powi', 'checked_pow'}
+# helper functions of ValueObj that stand for an operator (checked / Python-semantics forms); their bodies are judged by helper_rule
+HELPER_OP = {'py_floordiv': '/', 'py_mod': '%', 'py_fmod': '%', 'checked_add': '+', 'checked_sub': '-', 'checked_mul': '*', 'checked_div': '/', 'checked_rem': '%',
+             'div_euclid': None, 'rem_euclid': None}
 ARITH = {'+', '-', '*', '/', '%', '<', '>', '<=', '>=', '==', '!=', '^', '|', '&', '<<', '>>'}
 DISPATCH = {'Add': 'try_add', 'Sub': 'try_sub', 'Mul': 'try_mul', 'Div': 'try_div', 'FloorDiv': 'try_floordiv', 'Pow': 'try_pow',
             'Mod': 'try_mod', 'Gt': 'try_gt', 'Ge': 'try_ge', 'Lt': 'try_lt', 'Le': 'try_le', 'Eq': 'try_eq', 'Ne': 'try_ne'}
@@ -67,8 +70,10 @@ def operand_sides(arm_body, fname):
     for n in T.walk(arm_body):
         if n.get('k') == 'Binary' and n['op'] in ARITH | {'<', '<=', '>', '>=', '<<', '>>'}:
             out.append(({x['n'] for x in T.walk(n['x']) if x.get('k') == 'Local'}, {x['n'] for x in T.walk(n['y']) if x.get('k') == 'Local'}))
-        if n.get('k') == 'MCall' and n['n'] in POWFNS | {'partial_cmp', 'lt', 'le', 'gt', 'ge'} and n['a']:
+        if n.get('k') == 'MCall' and n['n'] in POWFNS | {'partial_cmp', 'lt', 'le', 'gt', 'ge'} | set(HELPER_OP) and n['a']:
             out.append(({x['n'] for x in T.walk(n['r']) if x.get('k') == 'Local'}, {x['n'] for a in n['a'] for x in T.walk(a) if x.get('k') == 'Local'}))
+        if n.get('k') == 'Call' and T.last_seg(n.get('fn') or '') in HELPER_OP and len(n['a']) == 2:
+            out.append(({x['n'] for x in T.walk(n['a'][0]) if x.get('k') == 'Local'}, {x['n'] for x in T.walk(n['a'][1]) if x.get('k') == 'Local'}))
     return out
 
 
@@ -96,6 +101,11 @@ def fold_arms(chk, fx, types, opclass, r1='C04-R1', r1b='C04-R1b', audit=True):
                     chk.bad(r1b, where, 'order:' + inst, '%s arm (%s): the operator is applied as `%s`, with the operands in the opposite order of the pattern `(%s, %s)`%s'
                             % (fname, inst, T.show(arm['b'])[:80], names[0], names[1], ' (one alternative of an or-pattern)' if nalt > 1 else ''), VALUE, arm['l'])
             ops = [n for n in T.walk(arm['b']) if n.get('k') == 'Binary' and n['op'] in ARITH]
+            # helper applications count as the operator they stand for (a helper standing for no operator of Python, e.g. rem_euclid, is a wrong operator)
+            for c_ in T.calls(arm['b']):
+                hn = c_['n'] if c_.get('k') == 'MCall' else T.last_seg(c_.get('fn') or '')
+                if hn in HELPER_OP:
+                    ops.append({'k': 'Binary', 'op': HELPER_OP[hn] or hn, 'helper': hn})
             pows = [n for n in T.calls(arm['b']) if n.get('k') == 'MCall' and n['n'] in POWFNS]
             floors = [n for n in T.calls(arm['b']) if n.get('k') == 'MCall' and n['n'] == 'floor']
             # R1
@@ -106,10 +116,15 @@ def fold_arms(chk, fx, types, opclass, r1='C04-R1', r1b='C04-R1b', audit=True):
                 good = bool(ops) and not wrong and not pows
                 if fname == 'try_floordiv' and 'Float' in kinds and not floors:
                     good = False
+                # integer `//` and `%` differ between Rust and Python for negative operands: only the flooring helpers are the operator
+                if fname in ('try_floordiv', 'try_mod') and 'Float' not in kinds and not any(o.get('helper') in ('py_floordiv', 'py_mod') for o in ops):
+                    good = False
+                if fname == 'try_mod' and 'Float' in kinds and not any(o.get('helper') == 'py_fmod' for o in ops):
+                    good = False
             if good:
                 chk.ok(r1, (fname, inst), sample='%s (%s): %s' % (fname, inst, T.show(arm['b'])))
             else:
-                what = ('applies `%s`' % wrong[0]['op']) if wrong else ('applies pow' if pows and fname != 'try_pow' else
+                what = ('applies the raw `%s` of Rust (truncating / sign of the dividend) instead of the flooring helper' % sorted(cls)[0]) if (not wrong and ops and fname in ('try_floordiv', 'try_mod') and not any(o.get('helper') for o in ops)) else ('applies `%s`' % wrong[0]['op']) if wrong else ('applies pow' if pows and fname != 'try_pow' else
                                                                          'has no `%s` application' % '/'.join(sorted(cls) or ['pow']) if not floors and fname != 'try_floordiv' or not ops else 'does not floor the float quotient')
                 chk.bad(r1, where, inst, '%s arm (%s) %s: `%s`' % (fname, inst, what, T.show(arm['b'])), VALUE, arm['l'])
             # R3
@@ -167,15 +182,81 @@ def run(chk):
                     else:
                         chk.bad('C04-R2', 'Context::eval_bin', v, 'OpKind::%s is folded by %s, expected %s' % (v, sorted(called), want), EVAL, arm['l'])
     chk.floor('eval_bin dispatch rows', rows, 13)
+    helper_rule(chk, fx)
     return ('Sibling cross-check of the 13 folding functions ValueObj::try_<op> (operator class per numeric arm, from resolved HIR Binary/MethodCall nodes '
             'with operand types), the OpKind dispatch table of Context::eval_bin, and an audit of trapping / truncating integer operations in those arms. '
             'Decides these structural clauses; float rounding and non-arithmetic constant expressions are not decided.'), {}
 
 
+def helper_rule(chk, fx):
+    """the flooring helpers are compared with Python's own operators on a grid of operands"""
+    import math
+    from sa.kinds import mini
+    chk.rule('C04-py', 'the helpers behind the folded `//` and `%` compute what Python computes: ValueObj::py_floordiv / py_mod (integers) and py_fmod (floats) are interpreted '
+                       '(typed HIR: lets, if / else, early return, Rust\'s truncating `/` and dividend-signed `%`) for every operand pair of a grid and compared with Python\'s floor '
+                       'division and modulo; a zero divisor gives None. Rust\'s raw operators differ for operands of different sign: -7 // 2 is -4 and -7 % 2 is 1 in Python')
+    ints = list(range(-9, 10)) + [-(2 ** 31), 2 ** 31 - 1, 2 ** 63, 2 ** 64 - 1]
+    flts = [-9.25, -7.5, -4.0, -2.0, -1.5, -0.5, 0.5, 1.5, 2.0, 4.0, 7.5, 9.25, 0.0]
+    n = 0
+    for name, ref, grid in (('py_floordiv', lambda a, b: a // b, ints), ('py_mod', lambda a, b: a % b, ints), ('py_fmod', lambda a, b: a % b, flts)):
+        fs = [f for f in fx.fns(VALUE) if T.norm(f['path']) == 'ValueObj::' + name]
+        if not chk.need(len(fs) == 1, 'ValueObj::%s not found' % name):
+            continue
+        bad = None
+        try:
+            for a in grid:
+                for b in grid:
+                    if b == 0:
+                        if name != 'py_fmod':
+                            got = mini.call(fs[0], [a, 0])
+                            n += 1
+                            if got != mini.NONE and bad is None:
+                                bad = (a, b, got, 'None')
+                        continue
+                    got = mini.call(fs[0], [a, b])
+                    want = ref(a, b)
+                    n += 1
+                    same = (got == want) if not isinstance(want, float) else (got is not mini.NONE and isinstance(got, (int, float)) and math.isclose(got, want, abs_tol=1e-12))
+                    if not same and bad is None:
+                        bad = (a, b, got, want)
+        except mini.Unknown as u:
+            chk.need(False, 'ValueObj::%s: cannot interpret the body (%s)' % (name, u))
+            continue
+        if bad:
+            chk.bad('C04-py', 'ValueObj::' + name, 'differs-from-python', 'ValueObj::%s(%r, %r) gives %r where Python gives %r: a constant expression folds to another value than the '
+                    'program computes at run time' % (name, bad[0], bad[1], bad[2], bad[3]), VALUE, fs[0].get('line'))
+        else:
+            chk.ok('C04-py', name, sample='%s agrees with Python on the grid' % name)
+    chk.count('helper evaluations against Python', n)
+
+
+def widened_fits(n, types):
+    """`a as W op b as W` where a, b come from narrower integer types: the result needs at most bits(a)+1 / bits(a)+bits(b) bits; it cannot overflow W if that is below W's"""
+    def bits(e):
+        e = T.peel(e)
+        if e.get('k') == 'Cast' and types[e['from']] in INTS and types[e['ty']] in INTS and not lossy_cast(types[e['from']], types[e['ty']]):
+            f = types[e['from']]
+            return WIDTH[f] - (1 if f[0] == 'i' else 0)      # magnitude bits
+        if e.get('k') == 'Paren' and 'x' in e:
+            return bits(e['x'])
+        return None
+    a, b = bits(n['x']), bits(n['y'])
+    if a is None or b is None:
+        return False
+    t = types[n['lt']]
+    room = WIDTH[t] - (1 if t[0] == 'i' else 0)
+    need = (max(a, b) + 1) if n['op'] in ('+', '-') else (a + b)
+    if t[0] == 'u' and n['op'] == '-':
+        return False
+    return need <= room
+
+
 def audit_int_ops(chk, body, types, where, inst, file, unary=False):
     for n in T.walk(body):
         k = n.get('k')
-        if k == 'Binary' and n['op'] in ('+', '-', '*', '/', '%') and types[n['lt']] in INTS:
+        if k == 'Binary' and n['op'] in ('+', '-', '*') and types[n['lt']] in INTS and widened_fits(n, types):
+            chk.ok('C04-R3', (where, inst, 'widened', n['op'], n.get('l')))
+        elif k == 'Binary' and n['op'] in ('+', '-', '*', '/', '%') and types[n['lt']] in INTS:
             t = types[n['lt']]
             why = {'+': 'overflow', '-': 'overflow', '*': 'overflow',
                    '/': 'zero divisor traps; truncates toward zero where Python floors', '%': 'zero divisor traps; sign follows the dividend where Python follows the divisor'}[n['op']]
